@@ -298,6 +298,52 @@ def check_set_backend():
         mido.backend = saved_backend
 
 
+def copies_fail():
+    """Standard-library copies of a Backend object (copy.copy of any, deepcopy / pickle of one not loaded yet): name, API and
+    use_environ are those of the original, whatever is done through the copy."""
+    import importlib
+    import os
+    from mido.backends.backend import Backend
+    from .. import persist
+    log = []
+    fake = make_module('fk', True, True, log)
+    real_import = importlib.import_module
+    importlib.import_module = lambda name, package=None: fake if name == 'fk' else real_import(name, package)
+    old_env = {k: os.environ.get(k) for k in ('MIDO_DEFAULT_INPUT', 'MIDO_DEFAULT_OUTPUT', 'MIDO_DEFAULT_IOPORT')}
+    os.environ.update({'MIDO_DEFAULT_INPUT': 'envin', 'MIDO_DEFAULT_OUTPUT': 'envout', 'MIDO_DEFAULT_IOPORT': 'envio'})
+    try:
+        for use_env in (False, True):
+            for loaded in (False, True):
+                b = Backend('fk/ALSA', use_environ=use_env, load=loaded)
+
+                def use(x):
+                    del log[:]
+                    x.open_input()
+                    x.open_output()
+                    x.open_ioport()
+                    x.get_input_names()
+                    return list(log)
+                for how, c in persist.clones(b, deep_only=False):
+                    if isinstance(c, Exception):
+                        if loaded and how != 'copy.copy':
+                            continue            # a module object cannot be deep-copied or pickled: not this library's doing
+                        return f'{how} of Backend("fk/ALSA", use_environ={use_env}, load={loaded}) raised {type(c).__name__}: {c}'
+                    got = use(c)
+                    want = use(Backend('fk/ALSA', use_environ=use_env, load=loaded))
+                    if got != want or c.name != 'fk' or c.api != 'ALSA' or c.use_environ != use_env:
+                        return (f'the {how} of Backend("fk/ALSA", use_environ={use_env}, load={loaded}) behaves differently: opening ports '
+                                f'without a name recorded {got}, the original kind of object records {want} '
+                                f'(copy: name={c.name!r} api={c.api!r} use_environ={c.use_environ!r})')
+        return None
+    finally:
+        importlib.import_module = real_import
+        for k, v in old_env.items():
+            if v is None:
+                os.environ.pop(k, None)
+            else:
+                os.environ[k] = v
+
+
 def variants(ck, cfgs):
     """The same configurations with the user's module under other names (also names of modules mido ships) and with
     bystander attributes on the module: the outcome is the one of the plain fake module."""
@@ -344,6 +390,11 @@ def run(ck):
     ck.sample({'cfg': repr(cfgs[1234])})
     ck.sample({'cfg': repr(cfgs[-1])})
     ck.compare('backend', reqs, impl, ck.driver.run(reqs))
+    fc = copies_fail()
+    ck.evaluations += 1
+    ck.count('backend_copies')
+    if fc:
+        ck.oracle_fail({'backend_copies': True}, fc)
     f = check_set_backend()
     ck.evaluations += 1
     if f:
@@ -353,6 +404,8 @@ def run(ck):
 
 
 def oracle(case):
+    if 'backend_copies' in case:
+        return copies_fail()
     if 'set_backend' in case:
         return check_set_backend()
     cfg = eval(case['cfg'])
